@@ -33,16 +33,23 @@ PROP = dict(
           "30th record of the loop's descriptor map, its own wake-up descriptor included), 40% of the callback actions create+enable an "
           "event on an already open descriptor the loop has no record for and 20% drain the own descriptor, so the map grows and "
           "re-hashes while a pass is being served; an event called a second time in one pass whose descriptor is no longer ready is a "
-          "violation. directed: 14 minimal histories x 2 back-ends. "
+          "violation. In both legs one callback in eight tries, as its last step, to close() its own still-enabled descriptor "
+          "(and the event-less other end) and only THEN disable every event of that number (equiv: only when no other event of the "
+          "descriptor was enabled when the pass started and the other end is never watched); between passes such a number is re-opened "
+          "with probability 2/3 as a new pipe / socket pair end (dup2 onto the number, other end parked at >= 300), the events left on it "
+          "are enabled again (3/4 each), a new event is added to the surviving record (1/3) and the end is made ready; otherwise the "
+          "loop's own wake-up descriptor of the next pass may take the number. directed: 14 minimal histories x 2 back-ends, plus 3 "
+          "differential histories (close while enabled, disable, re-open the number, enable the same / a sibling / a new event). "
           "A case is non-trivial when some pass had at least two descriptors with a due enabled event and a callback changed another "
           "event (enable/disable/destroy/create); distinct = distinct hashes of the executed action script (kinds, target classes, "
           "descriptors, masks, readiness shaping) among those"),
     assumptions=[
-        "a descriptor is closed only after every event on it has been destroyed or disabled (the running event is disabled and deleted "
-        "later); closing a descriptor that still carries enabled events is API misuse (the kernel recycles the number: the loop's own "
-        "wake-up descriptor of the next pass would inherit the record) and is not generated; events left disabled on a closed descriptor "
-        "are never enabled again",
-        "no descriptor is opened while a pass is in progress, so a descriptor number is never closed and re-opened between the back-end's "
+        "a descriptor is closed either after every event on it has been destroyed or disabled, or while events on it are enabled provided "
+        "the same callback disables every event of that number before it returns (close-then-disable, what sloppy EOF handlers do); no "
+        "event is ever left enabled on a closed descriptor when control returns to the loop (the kernel recycles the number: the loop's "
+        "own wake-up descriptor would inherit an active record); events left disabled on a closed descriptor are enabled again only "
+        "after the harness has re-opened that number",
+        "no descriptor is opened while a pass is in progress (numbers are re-opened between passes only), so a descriptor number is never closed and re-opened between the back-end's "
         "wait and the end of the pass (both back-ends identify a descriptor by its number)",
         "an event is never deleted or re-initialised from inside its own callback (the code asserts against the former; the documented "
         "idiom, deletion through runNext, is generated); initialize() is called once per event",
@@ -87,5 +94,10 @@ PROP = dict(
         "wide_scenarios", "max_registered_descriptors", "new_descriptor_registered_in_callback",
         "new_descriptor_registered_in_callback_with_ge_13_records", "registration_in_callback_grows_map_to_14_records",
         "registration_in_callback_grows_map_to_30_records", "map_growth_in_callback_between_served_and_unserved_fds",
+        # descriptor closed while enabled, then disabled; record survives; number re-opened; same / sibling / new event enabled again
+        "act_close_own_fd_while_enabled_then_disable", "act_close_own_fd_while_sibling_enabled_too",
+        "fd_number_reopened_with_surviving_record", "fd_closed_while_enabled_then_number_reused_and_reenabled",
+        "new_event_enabled_on_reused_fd_number_with_surviving_record", "event_due_on_reused_fd_number_with_surviving_record",
+        "cb_on_reused_fd_number_with_surviving_record", "directed_reuse_number_pairs",
     ]},
 )
